@@ -780,6 +780,24 @@ def c_ik_path(case, ctx):
         check_pose_coherent(p, "IKPath[%d]" % k)
 
 
+_IKP_PAIRS = [
+    (np.array([0.5, -1.0, 2.0, 0.3, -0.2, 0.4]), np.array([-2.0, 1.5, 0.25, -0.6, 0.9, 0.1])),
+    (np.array([0.0, 0.0, 0.0, 0.0, 0.0, 0.0]), np.array([1.0, 2.0, 3.0, 0.7, -1.1, 0.5])),
+    (np.array([3.0, 1.0, -2.5, 0.7, -0.4, 0.2]), np.array([3.0, 1.0, -2.5, -1.2, 0.3, 2.0])),
+    (np.array([-7.0, 8.0, 9.0, 1.5, 1.5, -1.5]), np.array([7.0, -8.0, -9.0, 0.0, 0.0, 0.0])),
+    (np.array([0.1, 0.2, 0.3, 2.0, 0.0, 0.0]), np.array([0.4, 0.5, 0.6, 0.0, 2.0, 0.0])),
+    (np.array([10.0, 0.0, 0.0, 0.0, 0.0, 3.0]), np.array([0.0, 10.0, 0.0, 0.0, 0.0, -3.0])),
+    (np.array([1e-3, -2e-3, 5e-4, 1e-2, 2e-2, -1e-2]), np.array([2e-3, 1e-3, -5e-4, -1e-2, 1e-2, 2e-2])),
+    (np.array([1.0, 1.0, 1.0, 0.5, 0.5, 0.5]), np.array([2.0, 3.0, 5.0, 0.25, 0.75, 1.25])),
+]
+
+
+def _ik_path_enum_case(i, tier):
+    steps = 2 + i % 199
+    a, b = _IKP_PAIRS[(i // 199) % len(_IKP_PAIRS)]
+    return {"a": a.copy(), "b": b.copy(), "steps": steps, "kind": "enum"}
+
+
 def c_twist_to_goal(case, ctx):
     a, b = case["a"], case["b"]
     fsr = L()["fsr"]
@@ -1053,6 +1071,10 @@ CLAUSES = [
     Clause("close_linear_gap_exact_step", c_linear_gap, gap_cases(), 600, 16000),
     Clause("close_arc_gap_exact_step", c_arc_gap, gap_cases(), 600, 16000, region=arc_gap_region),
     Clause("ik_path_even_spacing", c_ik_path, path_cases(), 400, 8000),
+    # the step count is a small finite domain (2..200): every value is tried, so a count-specific slip
+    # (float rounding in an arange, an off-by-one for particular n) cannot hide between samples
+    Clause("ik_path_every_step_count", c_ik_path, kind="enum",
+           size=lambda tier: 199 * (2 if tier == "quick" else 8), case_at=_ik_path_enum_case),
     Clause("twist_to_goal_exponentiates", c_twist_to_goal, pose_pairs(), 600, 16000),
     Clause("chain_jacobian_is_space_jacobian", c_chain_jacobian, chain_cases(), 600, 16000),
     Clause("numerical_jacobian_is_analytic", c_numerical_jacobian, numjac_cases(), 400, 8000),
